@@ -160,41 +160,70 @@ class Interp:
             return True
         return r == z3.sat
 
+    # Every solver-dependent choice of a run is recorded in the trace as (kind, decision, hash):
+    #   'f'  a decision taken in fork mode (both sides feasible -> the other side is queued),
+    #   'p'  a forced decision met during a speculative (pure) evaluation,
+    #   'x'  a speculative evaluation that had to be abandoned (a real fork or an exception inside).
+    # A re-run under a recorded prefix follows these entries WITHOUT asking the solver again, so its
+    # control flow cannot depend on solver timing; the hash of each condition is compared (replay guard).
+    def _next_entry(self):
+        if self.pos < len(self.decisions):
+            return self.decisions[self.pos]
+        return None
+
+    def _record(self, entry):
+        if self.pos < len(self.decisions):
+            pass                      # replaying: the entry is already there
+        else:
+            self.decisions.append(entry)
+        self.pos += 1
+        self.trace.append(entry)
+
     def branch(self, cond):
         """decide a (possibly symbolic) condition; forks the exploration when both sides are feasible"""
         if isinstance(cond, bool):
             return cond
         if not is_z3(cond):
             return bool(cond)
+        h = cond.hash()               # of the term as built (simplification may reorder arguments)
         cond = self.simp(cond)
         if isinstance(cond, bool):
             return cond
-        if self.pos < len(self.decisions):
-            d = self.decisions[self.pos]
-            self.pos += 1
-            self.trace.append(d)
-            self.assume(cond if d else z3.Not(cond))
+        e = self._next_entry()
+        if e is not None:
+            kind, d, want = e
+            if kind == "x" or want != h or (kind == "p") != bool(self.pure):
+                raise Unsupported("engine error: non-deterministic replay of a path (entry %d)" % self.pos)
+            self._record(e)
+            if not self.pure:
+                self.assume(cond if d else z3.Not(cond))
             return d
         t = self.feasible(cond)
         f = self.feasible(z3.Not(cond))
         if not t and not f:
             raise Abort()
-        if t and f:
-            if self.pure:
+        if self.pure:
+            if t and f:
                 raise Impure()
-            self.pending.append(self.trace + [False])
+            self._record(("p", t, h))
+            return t
+        if t and f:
+            self.pending.append(self.trace + [("f", False, h)])
             d = True
         else:
             d = t
-        self.pos += 1
-        self.decisions.append(d)
-        self.trace.append(d)
+        self._record(("f", d, h))
         self.assume(cond if d else z3.Not(cond))
         return d
 
     def try_pure(self, thunk):
         """evaluate thunk() without forking; returns (ok, value)"""
-        saved = (len(self.pc), self.pos, list(self.trace), list(self.decisions), len(self.pending), len(self.events))
+        e = self._next_entry()
+        if e is not None and e[0] == "x":
+            self._record(e)           # recorded: this speculative evaluation was abandoned
+            return False, None
+        saved = (len(self.pc), self.pos, list(self.trace), len(self.decisions), len(self.pending), len(self.events))
+        replaying = e is not None
         self.pure += 1
         self.solver.push()
         try:
@@ -205,23 +234,22 @@ class Interp:
             ok = False
         finally:
             self.pure -= 1
-        if ok and len(self.pc) == saved[0]:
-            self.solver.pop()
-            return True, v
         if ok:
-            # constraints were added by forced decisions: keep them (they are implied by pc) -- re-add
             added = self.pc[saved[0]:]
             self.solver.pop()
             for c in added:
                 self.solver.add(c)
             return True, v
+        if replaying:
+            raise Unsupported("engine error: a recorded speculative evaluation failed on replay")
         self.solver.pop()
         del self.pc[saved[0]:]
         self.pos = saved[1]
         self.trace = saved[2]
-        self.decisions = saved[3]
+        del self.decisions[saved[3]:]
         del self.pending[saved[4]:]
         del self.events[saved[5]:]
+        self._record(("x", None, 0))
         return False, None
 
     # ------------------------------------------------------------------ value helpers
